@@ -61,18 +61,20 @@ Qed.
 
 Lemma digit_props c : is_digit c = true ->
   int_isspace c = false /\ py_isspace c = false /\ (c =? c_minus) = false /\ (c =? c_plus) = false
-  /\ int_domain c = true /\ (c =? c_sp) = false.
+  /\ to_ascii c = c /\ (c =? c_sp) = false.
 Proof.
   unfold is_digit. intro H. apply andb_true_iff in H as [H1 H2]. apply N.leb_le in H1, H2.
   assert (Hs : py_isspace c = false).
   { unfold py_isspace, memN, py_space_list. cbn [existsb].
     repeat (apply orb_false_iff; split; [apply N.eqb_neq; lia|]). reflexivity. }
   repeat split.
-  - unfold int_isspace. rewrite Hs. reflexivity.
+  - unfold int_isspace. apply orb_false_iff. split.
+    + apply andb_false_iff. right. apply N.leb_gt. lia.
+    + apply N.eqb_neq. unfold c_sp. lia.
   - exact Hs.
   - apply N.eqb_neq. unfold c_minus. lia.
   - apply N.eqb_neq. unfold c_plus. lia.
-  - unfold int_domain. apply orb_true_iff. left. apply N.ltb_lt. lia.
+  - unfold to_ascii. assert (E : (c <? 128) = true) by (apply N.ltb_lt; lia). rewrite E. reflexivity.
   - apply N.eqb_neq. unfold c_sp. lia.
 Qed.
 
@@ -103,10 +105,12 @@ Lemma py_int_dec (pad : bool) n :
 Proof.
   pose proof (dec_digits n) as Hd. pose proof (dec_nonempty n) as Hne.
   unfold py_int.
-  assert (Hdom : forallb int_domain ((if pad then [c_sp] else []) ++ dec n) = true).
-  { rewrite forallb_app. apply andb_true_iff. split; [destruct pad; reflexivity|].
-    apply forallb_forall. intros c Hc. eapply forallb_forall in Hd; [|exact Hc]. apply digit_props in Hd. tauto. }
-  rewrite Hdom. cbn [negb].
+  assert (Hdom : map to_ascii ((if pad then [c_sp] else []) ++ dec n) = (if pad then [c_sp] else []) ++ dec n).
+  { rewrite map_app. f_equal; [destruct pad; reflexivity|].
+    clear Hne. induction (dec n) as [|c r IH]; [reflexivity|].
+    unfold all_digits in Hd. cbn [forallb] in Hd. apply andb_true_iff in Hd as [Hc Hr].
+    cbn [map]. rewrite (IH Hr). apply digit_props in Hc as (_ & _ & _ & _ & Hc & _). rewrite Hc. reflexivity. }
+  rewrite Hdom.
   assert (Hs : strip_by int_isspace ((if pad then [c_sp] else []) ++ dec n) = dec n).
   { assert (Hid : strip_by int_isspace (dec n) = dec n).
     { apply strip_by_id.
@@ -153,6 +157,32 @@ Proof.
   intros Hs Hx. unfold memN. destruct (existsb (N.eqb x) s) eqn:E; [|reflexivity].
   apply existsb_exists in E as (y & Hy & Exy). apply N.eqb_eq in Exy. subst y.
   eapply forallb_forall in Hs; [|exact Hy]. congruence.
+Qed.
+
+(* ---- the general split / substring test on one-character separators ------------ *)
+Lemma contains_single rd x : contains [rd] x = memN rd x.
+Proof.
+  induction x as [|c r IH]; [reflexivity|].
+  cbn [contains starts_with]. rewrite IH. unfold memN. cbn [existsb].
+  rewrite andb_true_r. reflexivity.
+Qed.
+
+Lemma split_aux_single d s : forall cur,
+  split_aux [d] 0 cur s = match split1 d s with w :: ws => (rev cur ++ w) :: ws | [] => [rev cur] end.
+Proof.
+  induction s as [|c r IH]; intro cur.
+  - cbn. rewrite app_nil_r. reflexivity.
+  - cbn [split_aux starts_with split1 length Nat.sub].
+    pose proof (split1_nonnil d r) as Hn. destruct (split1 d r) as [|w ws] eqn:E; [congruence|].
+    rewrite andb_true_r. rewrite (N.eqb_sym d c). destruct (c =? d) eqn:Ec.
+    + rewrite IH. cbn [rev app]. rewrite app_nil_r. reflexivity.
+    + rewrite IH. cbn [rev]. rewrite <- app_assoc. reflexivity.
+Qed.
+
+Lemma py_split_single d s : py_split [d] s = Ok (split1 d s).
+Proof.
+  unfold py_split. rewrite split_aux_single. pose proof (split1_nonnil d s).
+  destruct (split1 d s); [congruence|reflexivity].
 Qed.
 
 (* ---- texts that begin and end with a digit ---------------------------------- *)
@@ -242,12 +272,12 @@ Section ParseProof.
   (* one piece of the text, as parse_int_list treats it *)
   Lemma parse_piece pad r rest out :
     range_ok r ->
-    parse_parts rd (piece rd pad r :: rest) out = parse_parts rd rest (out ++ expand_range r).
+    parse_parts [rd] (piece rd pad r :: rest) out = parse_parts [rd] rest (out ++ expand_range r).
   Proof.
     destruct r as [a b]. unfold range_ok, piece, render_range, expand_range. cbn [fst snd]. intros [H0 H1].
     destruct (a =? b)%Z eqn:E.
     - apply Z.eqb_eq in E. subst b. rewrite decZ_nonneg by lia.
-      cbn [parse_parts]. rewrite memN_pad_dec by assumption.
+      cbn [parse_parts]. rewrite contains_single. rewrite memN_pad_dec by assumption.
       assert (Hn : is_nil ((if pad then [c_sp] else []) ++ dec (Z.to_N a)) = false).
       { destruct pad; [reflexivity|]. cbn [app]. pose proof (dec_nonempty (Z.to_N a)).
         destruct (dec (Z.to_N a)); [congruence|reflexivity]. }
@@ -257,7 +287,7 @@ Section ParseProof.
       assert (Hm : memN rd ((if pad then [c_sp] else []) ++ dec (Z.to_N a) ++ [rd] ++ dec (Z.to_N b)) = true).
       { rewrite !memN_app. cbn [app]. unfold memN at 3. cbn [existsb]. rewrite N.eqb_refl.
         rewrite orb_true_r. cbn. rewrite !orb_true_r. reflexivity. }
-      rewrite Hm.
+      rewrite contains_single, Hm, py_split_single.
       assert (Hs : split1 rd ((if pad then [c_sp] else []) ++ dec (Z.to_N a) ++ [rd] ++ dec (Z.to_N b))
                    = [(if pad then [c_sp] else []) ++ dec (Z.to_N a); dec (Z.to_N b)]).
       { rewrite app_assoc. cbn [app]. rewrite split1_app by (apply memN_pad_dec; assumption).
@@ -270,7 +300,7 @@ Section ParseProof.
 
   Lemma parse_pieces pad rs : forall out,
     Forall range_ok rs ->
-    parse_parts rd (map (piece rd pad) rs) out = Ok (sortZ (out ++ flat_map expand_range rs)).
+    parse_parts [rd] (map (piece rd pad) rs) out = Ok (sortZ (out ++ flat_map expand_range rs)).
   Proof.
     induction rs as [|r t IH]; intros out Hok.
     - cbn. rewrite app_nil_r. reflexivity.
@@ -318,7 +348,7 @@ Section ParseProof.
     parse_int_list (render_ranges (sep_of [d] space) [rd] rs) [d] [rd]
     = Ok (sortZ (flat_map expand_range rs)).
   Proof.
-    intro Hok. unfold parse_int_list, render_ranges.
+    intro Hok. unfold parse_int_list, render_ranges. rewrite py_split_single.
     destruct rs as [|r t].
     - reflexivity.
     - rewrite good_strip by (left; apply good_join; [exact Hok|discriminate]).
